@@ -727,6 +727,31 @@ impl WatchpointRegistry {
     }
 }
 
+/// Verification entry points: what `Debugger::set_watchpoint_on_memory` and
+/// `Debugger::remove_watchpoint_by_addr` do, without a `Debugger` around the registry.
+#[cfg(feature = "verif")]
+impl WatchpointRegistry {
+    pub fn verif_add_raw(
+        &mut self,
+        tracee_ctl: &TraceeCtl,
+        addr: RelocatedAddress,
+        size: BreakSize,
+        condition: BreakCondition,
+    ) -> Result<u32, Error> {
+        let (hw_state, wp) = Watchpoint::from_raw_addr(tracee_ctl, addr, size, condition, false)?;
+        Ok(self.add(hw_state, wp).number)
+    }
+
+    pub fn verif_remove_by_addr(
+        &mut self,
+        tracee_ctl: &TraceeCtl,
+        breakpoints: &mut BreakpointRegistry,
+        addr: RelocatedAddress,
+    ) -> Result<bool, Error> {
+        Ok(self.remove_by_addr(tracee_ctl, breakpoints, addr)?.is_some())
+    }
+}
+
 impl Debugger {
     /// Set a new watchpoint on a result of DQE.
     ///
